@@ -109,7 +109,7 @@ def build_input(kind, rng, tmp):
     if kind in ("haplotag", "haplotagphase", "split", "haplotag_ignore_rg"):
         samples = ["zeta", "alpha"]
         p = {"n_chrom": 2, "chrom_len": 2500, "n_var": 12, "kinds": ["snv"], "samples": samples, "depth": 6, "read_len": (200, 700),
-             "paired": 0.5, "error_rate": 0.02, "het_prob": 0.85}
+             "paired": 0.5, "error_rate": 0.02, "het_prob": 0.85, "names_per_sample": rng.random() < 0.5}
         sim = genome.simulate(rng, tmp, p)
         doc, blocks = genome.truth_phased_doc(sim, rng, tag="PS", block_len=(3, 8))
         vcf = os.path.join(tmp, "phased.vcf.gz")
